@@ -124,6 +124,21 @@ def main(chk: Check) -> None:
     cbad, _, _ = judge("TraceStop.tla", "TraceStop.cfg", can, "c04-canary")
     for i, cl in want.items():
         chk.canary(f"{cl}#{i}", (i, cl) in set(cbad), "shifted stop cycle / generation count of a real run")
+    # the same rule on real optimizers: C04.* verdicts of the run corpus (TracePop.tla embeds StopRel)
+    from . import corpus as _corpus, popchecks as _pc
+    v = _corpus.corpus(chk.tier, chk.seed)
+    crecs = {r["id"]: r for r in v["records"]}
+    for rid, clause in v["bad"]:
+        if clause.startswith("C04."):
+            chk.violation(clause, {"driver": "corpus", "optimizer": crecs[rid]["opt"]}, {"run": crecs[rid]["spec"]})
+    done = [r for r in v["records"] if r["completed"]]
+    chk.traces += len(done)
+    chk.states += v["states"]
+    chk.evaluations += len(done)
+    for r in done:
+        chk.distinct.add(("corpus", r["opt"], r["hasFe"], r["hasEs"], "max" if r["steps"] >= r["mc"] else "early"))
+    chk.extra["corpus_runs_judged"] = len(done)
+    chk.extra["corpus_runs_stopped_early"] = sum(1 for r in done if r["steps"] < r["mc"])
     chk.extra["terminal_behaviours_from_tlc"] = ngrid
     chk.extra["float_histories"] = nfloat
     chk.assumptions += [
